@@ -244,6 +244,39 @@ def raises_uncaught(case):
     return None
 
 
+WARPS = ['lin', 'exp', 'sin', 'cos', 'amp', 'db', ['2', True], ['-7/2', False], ['1/2048', False]]
+
+
+def gen_spec(rng):
+    """[expected default, shape]: a ControlSpec of any legal shape as the source of a default --
+    ordered, INVERTED (minval > maxval) and empty ranges, every warp, a step, the default inside the
+    range, on either bound, outside it, or None (then the spec's default is its minval)"""
+    lo, hi = gnum(rng), gnum(rng)
+    r = rng.random()
+    flo, fhi = Fraction(lo[0]), Fraction(hi[0])
+    if r < 0.4 and flo < fhi or r >= 0.6 and flo > fhi:
+        lo, hi = hi, lo                       # ~40 % inverted, ~60 % ordered
+    elif 0.4 <= r < 0.47:
+        hi = list(lo)
+    flo, fhi = Fraction(lo[0]), Fraction(hi[0])
+    k = rng.random()
+    if k < 0.2:
+        dflt = None
+    elif k < 0.5:
+        dflt = [str((flo + fhi) / 2 if rng.random() < 0.5 else flo + (fhi - flo) / 4), False]
+    elif k < 0.6:
+        dflt = list(lo)
+    elif k < 0.7:
+        dflt = list(hi)
+    elif k < 0.8:
+        dflt = [str(max(flo, fhi) + rng.randint(1, 9)), rng.random() < 0.5]
+    else:
+        dflt = gnum(rng)
+    shape = {'minval': lo, 'maxval': hi, 'warp': rng.choice(WARPS), 'step': rng.choice([None, None, ['0', True], ['1/2', False]]),
+             'default': dflt}
+    return [list(dflt) if dflt is not None else list(lo), shape]
+
+
 def control_params(tree):
     res = []
     for f in oracle.preorder(tree):
@@ -267,9 +300,9 @@ def gen_case(rng, idx, nmax, malformed=False):
         for p in cps:
             if rng.random() < (0.7 if p['default'][0] in ('none', 'None', 'str') else 0.2):
                 if p['name'] not in [s[0] for s in specs]:
-                    specs.append([p['name'], gnum(rng)])
+                    specs.append([p['name']] + gen_spec(rng))
         if rng.random() < 0.3:
-            specs.append(['unused', gnum(rng)])
+            specs.append(['unused'] + gen_spec(rng))
         case['specs'] = specs
     if cps and rng.random() < 0.4:
         vs = []
@@ -362,6 +395,17 @@ def battery():
              specs=[[n, ['7', True]] for n in 'abcdg'] + [['e', ['0', True]]],
              variants=[['z', [['a', ['s', '0', False]], ['g', ['l', [['0', True], ['0', 'nz']]]]]], ['y', [['e', ['s', '0', 'nz']]]]],
              calls=[{'args': [['0', True], ['0', False], ['0', 'b']], 'kwargs': [['f', ['0', True]], ['zz', ['0', False]], ['a', ['0', 'nz']]]}]),
+        case('b_spec_shapes', sig([P('inv'), P('invb'), P('none_inv'), P('out'), P('eq'), P('expw', 'ir'), P('dbw', 'ar'), P('curve', 'tr'),
+                                   P('nospec'), P('has', None, S(3))]),
+             specs=[['inv', ['1/4', False], {'minval': ['1', False], 'maxval': ['0', False], 'warp': 'lin', 'step': None, 'default': ['1/4', False]}],
+                    ['invb', ['0', False], {'minval': ['1', False], 'maxval': ['0', False], 'warp': 'amp', 'step': ['1/2', False], 'default': ['0', False]}],
+                    ['none_inv', ['8', True], {'minval': ['8', True], 'maxval': ['-8', True], 'warp': 'lin', 'step': None, 'default': None}],
+                    ['out', ['99', True], {'minval': ['0', True], 'maxval': ['1', True], 'warp': 'cos', 'step': None, 'default': ['99', True]}],
+                    ['eq', ['5', True], {'minval': ['5', True], 'maxval': ['5', True], 'warp': 'sin', 'step': None, 'default': None}],
+                    ['expw', ['440', True], {'minval': ['20000', True], 'maxval': ['20', True], 'warp': 'exp', 'step': ['0', True], 'default': ['440', True]}],
+                    ['dbw', ['-6', True], {'minval': ['0', True], 'maxval': ['-60', True], 'warp': 'db', 'step': None, 'default': ['-6', True]}],
+                    ['curve', ['-1/2', False], {'minval': ['1', True], 'maxval': ['-1', True], 'warp': ['-7/2', False], 'step': None, 'default': ['-1/2', False]}],
+                    ['has', ['7', True], {'minval': ['9', True], 'maxval': ['0', True], 'warp': 'lin', 'step': None, 'default': ['7', True]}]]),
         case('b_prepend_scalar0', sig([P('a'), P('freq', None, S(440))], prepend=1) | {'prepend_vals': ['scalar', ['n', '0', True]]},
              calls=[{'args': [['330', True]], 'kwargs': []}]),
         case('b_prepend_rates', sig([P('buf'), P('a', None, S(1)), P('b', 'tr', T(2, 3)), P('c', None, T(4, 5, 6)), P('d', None, S(7))],
@@ -487,7 +531,11 @@ def c_vals(v):
 
 def c_case(case, o):
     case = model_case(case)
-    specs = clist(case.get('specs') or [], lambda s: '(%s, %s)' % (cstr(s[0]), qn(s[1])))
+    def c_spec(e):
+        sh = e[2] if len(e) > 2 else {'minval': ['-1000000000', True], 'maxval': ['1000000000', True], 'default': e[1]}
+        return '(%s, {| cs_min := %s; cs_max := %s; cs_default := %s |})' % (
+            cstr(e[0]), qn(sh['minval']), qn(sh['maxval']), copt(sh['default'], qn))
+    specs = '(specs_of %s)' % clist(case.get('specs') or [], c_spec)
     vs = clist(case.get('variants') or [], lambda v: '(%s, %s)' % (cstr(v[0]), clist(v[1], lambda p: '(%s, %s)' % (cstr(p[0]), c_vals(p[1])))))
     if o['err'] == 0:
         v = o['variants']
@@ -569,7 +617,7 @@ def default_tags(case, p):
         return [kindtag(d[1:])]
     if d[0] == 't':
         return [kindtag(x) for x in d[1]]
-    for n, v in (case.get('specs') or []):
+    for n, v in [(e[0], e[1]) for e in (case.get('specs') or [])]:
         if n == p['name']:
             return [kindtag(v)]
     return ['f']
